@@ -845,3 +845,61 @@ func mutateHV(v HV) HV {
 	}
 	return w
 }
+
+// S-wf-shapes (C18): bodies ending in every kind of statement, nested definitions, empty bodies,
+// constructs back to back (join placeholders), and sizes around the 16-bit operand limits
+func genWfShapes(stream string, seed uint64) []GenCase {
+	r := NewRng(seed)
+	var out []GenCase
+	id := 0
+	add := func(script string, tags ...string) {
+		for _, opt := range []bool{true, false} {
+			c := Case{ID: fmt.Sprintf("%s-%d", stream, id), Script: script, Opt: opt, Tags: tags, Show: []string{"code", "wf"}, Fns: []HostFn{recFn()},
+				Runs: []Run{{Obj: stdObject(r), Polls: defaultPolls}}}
+			id++
+			out = append(out, GenCase{Case: c, Stream: stream, NonTrivial: true})
+		}
+	}
+	lasts := []string{"", "x = 1;", "x = a + 1;", "rec(a);", "a;", "1;", "return a;", "return;", "local q;", "local q; q = 2;", "x++;", "x += 2;",
+		"if (a) { return 1; }", "if (a) { return 1; } else { return 2; }", "if (a) { x = 1; } else if (b) { x = 2; } else { x = 3; }",
+		"while (x < 3) { x++; }", "while (false) { return 1; }", "foreach v in [1, 2] { rec(v); }", "foreach i, v in [1, 2] { return v; }",
+		"switch (a) { case 1 { return 1; } default { return 2; } }", "switch (a) { case 1 { x = 1; } }", "switch (a) { default { x = 1; } }", "switch (a) { }",
+		"function inner(p) { return p * 2; }", "function inner(p) { x = p; }", "function inner() { }", "function inner(p) { function innermost(q) { return q; } }",
+		"x = a ? 1 : 2;", "return a ? 1 : 2;", "return inner2(a);", "y = [1, 2, a];", "y = {\"k\": a};"}
+	for _, first := range []string{"", "b = a + 1;", "if (a) { b = 1; }", "function early(z) { return z; }"} {
+		for _, last := range lasts {
+			body := strings.TrimSpace(first + " " + last)
+			add("function outer(a) { "+body+" } function inner2(p) { return p; } r = outer(1); return 7;", "function-ending")
+			add("function outer(a) { "+body+" } function inner2(p) { return p; } return outer(1);", "function-ending-value-used")
+		}
+	}
+	// main bodies ending in / consisting of each construct; constructs back to back
+	for _, a := range lasts {
+		for _, b := range []string{"", "return 5;", "if (x) { y = 1; }", "while (false) { }", "z = 1 ? 2 : 3;"} {
+			add("a = 1; b = 0; x = 0; "+a+" "+b, "main-ending")
+		}
+	}
+	// sizes around the operand limits: many constants, long bodies, large literals
+	for _, n := range []int{250, 257, 1000} {
+		var sb strings.Builder
+		for k := 0; k < n; k++ {
+			fmt.Fprintf(&sb, "v%d = \"s%d\"; ", k, k)
+		}
+		sb.WriteString("if (v1 == \"s1\") { return v2; } return v3;")
+		add(sb.String(), "many-constants")
+	}
+	for _, lit := range []string{"65534", "65535", "65536", "70000", "131071"} {
+		add("x = "+lit+"; if (x == "+lit+") { return "+lit+" + 1; } return 0;", "literal-limits")
+		add("function f(a) { if (a) { return "+lit+"; } return [ "+lit+", "+lit+" ]; } return f(1);", "literal-limits")
+	}
+	{
+		var sb strings.Builder
+		sb.WriteString("x = 0; if (x == 0) { ")
+		for k := 0; k < 3000; k++ {
+			sb.WriteString("x = x + 1; ")
+		}
+		sb.WriteString("} else { x = 7; } while (x > 2990) { x = x - 1; } return x;")
+		add(sb.String(), "long-jumps")
+	}
+	return out
+}
